@@ -32,6 +32,14 @@ type Params struct {
 func Compile(ctx context.Context, path, content string, params Params) (*grammar.Grammar, error) {
 	tree, err := ast.Parse(ctx, path, content, tm.StopOnFirstError)
 	if err != nil {
+		if se, ok := err.(tm.SyntaxError); ok {
+			// Report the location of the offending token, like for all other errors.
+			col := se.Offset - strings.LastIndexByte(content[:se.Offset], '\n')
+			return nil, &status.Error{
+				Origin: status.SourceRange{Filename: path, Offset: se.Offset, EndOffset: se.Endoffset, Line: se.Line, Column: col},
+				Msg:    "syntax error",
+			}
+		}
 		return nil, err
 	}
 	file := ast.File{Node: tree.Root()}
